@@ -2,6 +2,7 @@ package props
 
 import (
 	"fmt"
+	"sort"
 	"strings"
 
 	"tkestack.io/galaxy/pkg/ipam/schedulerplugin/util"
@@ -61,10 +62,21 @@ func oracleC02(h *HistSys, hist []Op, w *world.World, obs Obs) *Finding {
 // oracleC02Model: reference model of what each identity / app must still hold, driven only by the history
 // (bindings handed out, scale/delete-app, API releases), not by the IPAM's own tables.
 func oracleC02Model(h *HistSys, hist []Op, w *world.World, last Obs) *Finding {
+	f, _ := c02Model(h, hist, w)
+	return f
+}
+
+// c02ModelCanon renders the model's obligations (history variables) for the canonical state.
+func c02ModelCanon(h *HistSys, w *world.World) string {
+	_, st := c02Model(h, nil, w)
+	return st
+}
+
+func c02Model(h *HistSys, hist []Op, w *world.World) (*Finding, string) {
 	pol := h.Class.Policy
 	dp := h.Class.Kind == "dp" || h.Class.Kind == "dppool"
 	if pol == "" && h.Class.Kind != "dppool" {
-		return nil
+		return nil, ""
 	}
 	never := pol == "never" || h.Class.Kind == "dppool"
 	held := map[int]string{}      // identity classes: pod index -> ip
@@ -148,7 +160,7 @@ func oracleC02Model(h *HistSys, hist []Op, w *world.World, last Obs) *Finding {
 					if len(free) > 0 && !ok {
 						return &Finding{Clause: "fresh-ip-while-app-holds-reserve", Culprit: "sched",
 							Detail: fmt.Sprintf("%s: replacement pod %s bound with %s although the app still holds unused %v (no scale-down / release since they were handed out)",
-								histString(hist), h.pod(o.Op.A).Name, x, free)}
+								histString(hist), h.pod(o.Op.A).Name, x, free)}, ""
 					}
 				}
 				appHeld[x] = true
@@ -156,13 +168,22 @@ func oracleC02Model(h *HistSys, hist []Op, w *world.World, last Obs) *Finding {
 			} else {
 				if prev, ok := held[o.Op.A]; ok && isLast && prev != x {
 					return &Finding{Clause: "different-ip-for-identity", Culprit: "sched",
-						Detail: fmt.Sprintf("%s: %s was bound with %s before and nothing ended that reservation, now bound with %s", histString(hist), h.pod(o.Op.A).Name, prev, x)}
+						Detail: fmt.Sprintf("%s: %s was bound with %s before and nothing ended that reservation, now bound with %s", histString(hist), h.pod(o.Op.A).Name, prev, x)}, ""
 				}
 				held[o.Op.A] = x
 			}
 		}
 	}
-	return nil
+	// model state: obligations still in force
+	var st []string
+	for i, ip := range held {
+		st = append(st, fmt.Sprintf("held[%d]=%s", i, ip))
+	}
+	for ip := range appHeld {
+		st = append(st, fmt.Sprintf("app:%s dead=%v known=%v", ip, dead[holder[ip]], known[holder[ip]]))
+	}
+	sort.Strings(st)
+	return nil, strings.Join(st, ",")
 }
 
 func oracleC02AtFilter(h *HistSys, hist []Op, w *world.World, obs Obs) *Finding {
@@ -345,13 +366,23 @@ func oracleC03(h *HistSys, hist []Op, w *world.World, obs Obs) *Finding {
 	quiesce(w)
 	q2 := w.MemDump()
 	cnt2 := prefixCounter(q2)
-	// (i) no IP stays assigned unless its policy reserves it
+	// (i) no IP stays assigned unless its policy reserves it. A leak is attributed to the transition that created it:
+	// an allocation that was already a leak (same IP, same key) in the predecessor's quiescent state is not reported again.
+	cnt1 := prefixCounter(q1)
+	old := map[string]bool{}
+	for _, s := range q1 {
+		if s.Alloc {
+			if ok, _ := policyAllows(h, pw, s, cnt1, false); !ok {
+				old[s.IP+"|"+s.Key] = true
+			}
+		}
+	}
 	for _, s := range q2 {
-		if !s.Alloc {
+		if !s.Alloc || old[s.IP+"|"+s.Key] {
 			continue
 		}
 		if ok, why := policyAllows(h, w, s, cnt2, false); !ok {
-			return &Finding{Clause: "leak-at-quiescence", Culprit: keyShape(s.Key) + "/p" + fmt.Sprint(s.Policy),
+			return &Finding{Clause: "leak-at-quiescence", Culprit: keyShape(s.Key) + "/p" + fmt.Sprint(s.Policy) + ":" + obs.Op.Kind,
 				Detail: fmt.Sprintf("%s; deliver-all; resync  => %v still allocated (%s)", histString(hist), s, why)}
 		}
 	}
@@ -364,7 +395,6 @@ func oracleC03(h *HistSys, hist []Op, w *world.World, obs Obs) *Finding {
 	for _, s := range q2 {
 		m2[s.IP] = s
 	}
-	cnt1 := prefixCounter(q1)
 	for _, s := range q1 {
 		if !s.Alloc || s.Reserved || posted[s.IP] {
 			continue
@@ -467,6 +497,7 @@ func init() {
 				if h.Class.Policy == "" && h.Class.Kind != "dppool" {
 					continue
 				}
+				h.ModelCanon = c02ModelCanon
 				jobs = append(jobs, histJob("C02", h.jobName(), h, depth, oracleC02, nil))
 			}
 			for _, sc := range c02Concurrent(tier) {
